@@ -37,6 +37,7 @@ def check(c: Check):
     check_references_complete(c, 'C08-g', floor=25)
     from .common import sweep_records
     sweep_records(c, 'C08-rec', ['exactly_lib.symbol', 'exactly_lib.util.symbol_table', 'exactly_lib.type_val_deps.sym_ref'], floor=5)
+    clause_h(c)
 
 
 # ---------------------------------------------------------------- a
@@ -499,3 +500,41 @@ def clause_f(c: Check):
                      and unparse(n.args[0]) in ('self._symbol_reference.name', 'self.symbol_name') for n in ast.walk(g.node))
             c.expect(ok, 'C08-f', 'SymbolStringFragmentSdv.resolve', 'a symbol fragment does not look up its own symbol '
                                                                      'name', g.loc())
+
+
+# ---------------------------------------------------------------- h
+def clause_h(c: Check):
+    """CFGOBL "a string is made of strings, transitively": every construction of
+    ReferenceRestrictionsOnDirectAndIndirect whose direct restriction demands a string (`is_string()`) also restricts
+    the indirectly referenced symbols to strings - else a list or path hidden behind a string symbol is accepted
+    where a string is demanded (path components, integer expressions ...)"""
+    ix = c.ix
+    RR = 'exactly_lib.type_val_deps.sym_ref.w_str_rend_restrictions.reference_restrictions'
+    cls = ix.cls(RR + ':ReferenceRestrictionsOnDirectAndIndirect')
+    is_string = ix.func('exactly_lib.type_val_deps.sym_ref.w_str_rend_restrictions.value_restrictions:is_string')
+    sites = util.call_sites_of(ix, cls)
+    n = 0
+    for s in sites:
+        b = util.ctor_call_args(ix, cls, s.node) or {}
+        m = ix.module(s.where.split(':')[0]) if ':' in s.where else ix.module(s.where)
+        f = ix.try_lookup(s.where) if ':' in s.where else None
+        f = f if isinstance(f, FuncDef) else None
+        d = b.get('direct')
+        if not (isinstance(d, ast.Call) and ix.callee(m, f, d) == is_string):
+            continue
+        n += 1
+        ind = b.get('indirect')
+        ok = isinstance(ind, ast.Call) and ix.callee(m, f, ind) == is_string
+        c.expect(ok, 'C08-h', 'string-restriction-is-transitive@' + s.where,
+                 'a reference restriction demands a string directly but restricts the indirectly referenced symbols with '
+                 '%s: a list / path behind a string symbol is accepted' % (unparse(ind) if ind is not None else 'nothing'),
+                 s.loc)
+    c.floor('C08-h', 'string restrictions constructed', n, 1)
+    # the restriction of path components is one of these
+    v = ix.try_lookup('exactly_lib.type_val_deps.types.path.references:PATH_COMPONENT_STRING_REFERENCES_RESTRICTION')
+    ok = False
+    if v is not None and getattr(v, 'value', None) is not None and isinstance(v.value, ast.Call):
+        d = ix.callee(v.module, None, v.value)
+        ok = getattr(d, 'key', None) in (RR + ':is_string__all_indirect_refs_are_strings', cls.key)
+    c.expect(ok, 'C08-h', 'path-component-restriction', 'the restriction on symbols used as path components is not a '
+                                                        'transitive string restriction', getattr(v, 'module', None) and v.module.relpath)
